@@ -180,3 +180,81 @@ Proof.
   - apply (proj1 (list_eqb_spec Z.eqb Z.eqb_eq _ _)). exact H3.
   - apply (proj1 (list_eqb_spec str_eqb str_eqb_eq _ _)). exact H4.
 Qed.
+
+(* ---- more about splitlines ---------------------------------------------- *)
+
+(* Windows line ends: \r\n is one boundary *)
+Definition join_crlf (ids : list str) : str := flat_map (fun s => s ++ [13; 10]) ids.
+
+Lemma split_from_line_crlf s : forall cur rest, cleanP s ->
+  split_from cur false (s ++ 13 :: 10 :: rest) = rev (rev s ++ cur) :: split_from [] false rest.
+Proof.
+  induction s as [|c s' IH]; intros cur rest Hc.
+  - reflexivity.
+  - cbn [app split_from andb]. rewrite (Hc c (or_introl eq_refl)).
+    rewrite IH by (intros x Hx; apply Hc; now right).
+    cbn [rev]. now rewrite <- app_assoc.
+Qed.
+
+Lemma splitlines_join_crlf ids : Forall cleanP ids -> splitlines (join_crlf ids) = ids.
+Proof.
+  unfold splitlines. induction 1 as [|s r Hs Hr IH]; [reflexivity|].
+  cbn [join_crlf flat_map]. rewrite <- app_assoc. cbn [app].
+  rewrite split_from_line_crlf by exact Hs. rewrite app_nil_r, rev_involutive. f_equal. exact IH.
+Qed.
+
+(* no entry read from a file ever contains a line boundary *)
+Lemma split_from_clean s : forall cur b, cleanP cur -> Forall cleanP (split_from cur b s).
+Proof.
+  induction s as [|c r IH]; intros cur b Hc.
+  - cbn [split_from]. destruct cur; constructor; [|constructor].
+    intros x Hx. apply Hc. now apply in_rev.
+  - cbn [split_from]. destruct (b && (c =? 10)); [now apply IH|].
+    destruct (is_term c) eqn:E.
+    + constructor; [intros x Hx; apply Hc; now apply in_rev|]. apply IH. intros x [].
+    + apply IH. intros x [<-|Hx]; [exact E|now apply Hc].
+Qed.
+
+Lemma splitlines_clean s : Forall cleanP (splitlines s).
+Proof. apply split_from_clean. intros x []. Qed.
+
+(* ---- what the checkers' verdicts mean ----------------------------------- *)
+
+Lemma holds_inv_sound v : holds_inv v = true ->
+  (v_sopts v <> [] -> (exists t, v_sfile v = Some t) -> v_exit v = 2 /\ v_got v = None)
+  /\ (v_got v = None -> v_exit v <> 0).
+Proof.
+  unfold holds_inv. rewrite andb_true_iff. intros [H1 H2]. split.
+  - intros Hne [t Ht]. rewrite Ht in H1. destruct (v_sopts v); [congruence|].
+    apply andb_true_iff in H1. destruct H1 as [E G]. apply Z.eqb_eq in E. split; [exact E|].
+    destruct (v_got v); [discriminate|reflexivity].
+  - intros G. rewrite G in H2. apply negb_true_iff, Z.eqb_neq in H2. exact H2.
+Qed.
+
+Lemma zl_eqb_eq a b : zl_eqb a b = true -> a = b.
+Proof. apply (proj1 (list_eqb_spec Z.eqb Z.eqb_eq a b)). Qed.
+
+Lemma holds_cli_sound k : holds_cli k = true ->
+  (* both forms: usage error *)
+  (c_both k = true -> c_exit k = 2)
+  (* same output as the Python entry point; it fails iff the command line fails *)
+  /\ (c_both k = false -> forall o, c_py k = Ok o -> c_exit k = 0 /\ c_out k = o)
+  /\ (c_both k = false -> forall e, c_py k = Err e -> c_exit k <> 0)
+  (* an escaping exception means a non-zero exit status *)
+  /\ (c_raised k = true -> c_exit k <> 0)
+  (* the respelled command line behaves identically *)
+  /\ (forall e o, c_alt k = Some (e, o) -> e = c_exit k /\ (e = 0 -> o = c_out k)).
+Proof.
+  unfold holds_cli. rewrite !andb_true_iff. intros [[[H1 H2] H3] _].
+  repeat split.
+  - intros B. rewrite B in H1. now apply Z.eqb_eq.
+  - rewrite H in H1. rewrite H0 in H1. apply andb_true_iff in H1. now apply Z.eqb_eq.
+  - rewrite H in H1. rewrite H0 in H1. apply andb_true_iff in H1. destruct H1 as [_ E]. now apply zl_eqb_eq.
+  - intros B e E. rewrite B, E in H1. now apply negb_true_iff, Z.eqb_neq in H1.
+  - intros R. rewrite R in H2. cbn [negb orb] in H2. now apply negb_true_iff, Z.eqb_neq in H2.
+  - rewrite H in H3. apply andb_true_iff in H3. now apply Z.eqb_eq.
+  - intros E0. rewrite H in H3. apply andb_true_iff in H3. destruct H3 as [_ H3].
+    apply orb_true_iff in H3. destruct H3 as [H3|H3].
+    + apply negb_true_iff, Z.eqb_neq in H3. congruence.
+    + now apply zl_eqb_eq.
+Qed.
